@@ -79,9 +79,11 @@ def run(ctx):
             continue
         n_u += 1
         b = s.body
-        names = {copy_root_name(b, s.ops[0])}
-        ok = names == {'line'} and line_typestate(ctx, b)
-        ctx.check(ok, 'R08.1', 'unwrap:%s' % ('line' if names == {'line'} else s.sig),
+        root = copy_root_local(b, s.ops[0])
+        is_line = root is not None and P.key_of(b).endswith('rle_16_decompress') and root in r16_vars(b)['line']
+        names = {b.local_name(root) if root is not None else None}
+        ok = is_line and line_typestate(ctx, b)
+        ctx.check(ok, 'R08.1', 'unwrap:%s' % ('line' if is_line else s.sig),
                   'unwrap() of the row cursor `line` (Some(..) is assigned by the row switch that precedes every pixel write)', s.where(),
                   '%s unwraps %s: not the established `line` typestate idiom - a None here is a panic on hostile data' % (P.key_of(b), sorted(names) or s.desc))
     ctx.floor('R08.1', 'unwrap sites in the decoder (macro-expanded line.unwrap())', n_u, 40)
@@ -106,7 +108,7 @@ def run(ctx):
     if rel_w0 is not None:
         b16 = P.bodies[R16]
         ctx.check(rel_w0.stable, 'R08.3', 'rel:stable:rle_16_decompress:w0', 'relational analysis of rle_16_decompress for width = 0 reached a fixpoint', b16.where())
-        im = b16.locals_named('insertmix')
+        im = sorted(r16_vars(b16)['mix'])
         im_edges = []
         for blk in range(b16.n):
             t = b16.blocks[blk]['term']
@@ -146,7 +148,7 @@ def run(ctx):
             ctx.fail('R08.3', '%s|%s' % (fn, s.sig), '%s: %s is not discharged for all u16 dimensions / data (intervals: %s; relational invariant: not implied)'
                      % (fn, s.desc, s.detail), s.where())
     ctx.floor('R08.3', 'arithmetic / slicing / loop sites discharged', n3, 250)
-    ctx.floor('R08.3', 'sites that need the relational invariant', n_rel, 200)
+    ctx.floor('R08.3', 'sites that need the relational invariant', n_rel, 150)
     ctx.extra['undecided_run_loop_sites'] = undecided
     ctx.extra['relational'] = {k_: {'block_visits': an.block_visits, 'sites': len(an.sites), 'entry_facts': [relinv.pshow(f) for f in an.entry_facts][:12]} for k_, an in rel.items()}
     if undecided:
@@ -223,9 +225,10 @@ def run(ctx):
 
     insertmix_guard(ctx, P)
     # ---- R08.5 run loops bounded by the column counter ------------------------------------------------------------------------
-    for f, counter, floor_ in (('codec::rle::rle_16_decompress', 'x', 40), ('codec::rle::process_plane', 'indexw', 4)):
+    for f, counter, floor_ in (('codec::rle::rle_16_decompress', 'the column counter', 40), ('codec::rle::process_plane', 'the column counter', 4)):
         b = P.bodies[f]
-        cl, wl = set(b.locals_named(counter)), set(b.locals_named('width'))
+        wl = {2}        # the line width is the second parameter of both decoders
+        cl = None
         cmps = set()
         for blk in range(b.n):
             t = b.blocks[blk]['term']
@@ -234,10 +237,8 @@ def run(ctx):
             dl = op_local(t['discr'])
             for d in b.defs.get(dl, []) if dl is not None else []:
                 if d[0] == 'stmt' and d[3]['rv']['rv'] == 'bin' and d[3]['rv']['op'] in ('Lt', 'Le', 'Gt', 'Ge'):
-                    vl, vr = set(), set()
-                    origins(b, d[3]['rv']['l'], visited=vl)
-                    origins(b, d[3]['rv']['r'], visited=vr)
-                    if (cl & vl and wl & vr) or (cl & vr and wl & vl):
+                    rl, rr = plain_root(b, d[3]['rv']['l']), plain_root(b, d[3]['rv']['r'])
+                    if (rr in wl) != (rl in wl):
                         cmps.add(blk)
         stores = []
         for blk in range(b.n):
@@ -256,13 +257,57 @@ def run(ctx):
         ctx.floor('R08.5', 'comparisons of %s with width in %s' % (counter, f.rsplit('::', 1)[-1]), len(cmps), 5)
 
 
+def r16_vars(b):
+    """the decoder's variables identified by their role, not their name (a rename must not matter):
+    width  = the second parameter (line width in pixels)
+    x      = the local initialised as a copy of width in the entry block (column counter)
+    line   = the Option<usize> local that is assigned Some(height * width); prevline = the Option<usize> local assigned from line
+    mix    = the bool local with exactly one `= true` assignment and at least one `= false` (inserted-mix flag)"""
+    out = {'width': {2} if b.arg_count >= 2 else set(), 'x': set(), 'line': set(), 'prevline': set(), 'mix': set()}
+    for l in range(b.arg_count + 1, len(b.locals)):
+        ty = b.local_ty(l)
+        ds = b.defs.get(l, [])
+        if not b.local_name(l):
+            continue
+        if ty == 'usize':
+            if any(d[0] == 'stmt' and d[1] in (0, 1) and d[3]['rv']['rv'] == 'use' and op_local(d[3]['rv']['op']) == 2 for d in ds):
+                out['x'].add(l)
+        elif ty == 'std::option::Option<usize>':
+            for d in ds:
+                if d[0] != 'stmt':
+                    continue
+                rv = d[3]['rv']
+                src = rv
+                if rv['rv'] == 'use' and is_place_op(rv['op']) and not rv['op']['place']['p']:
+                    dd = b.defs.get(rv['op']['place']['l'], [])
+                    if len(dd) == 1 and dd[0][0] == 'stmt':
+                        src = dd[0][3]['rv']
+                if src['rv'] == 'agg' and src.get('variant') == 'Some' and src['ops']:
+                    vis = set()
+                    origins(b, src['ops'][0], visited=vis)
+                    if 2 in vis:
+                        out['line'].add(l)
+        elif ty == 'bool':
+            trues = [d for d in ds if d[0] == 'stmt' and d[3]['rv']['rv'] == 'use' and op_const(d[3]['rv']['op']) == 1]
+            falses = [d for d in ds if d[0] == 'stmt' and d[3]['rv']['rv'] == 'use' and op_const(d[3]['rv']['op']) == 0]
+            if len(trues) == 1 and falses and len(trues) + len(falses) == len(ds):
+                out['mix'].add(l)
+    for l in range(b.arg_count + 1, len(b.locals)):
+        if b.local_ty(l) == 'std::option::Option<usize>' and b.local_name(l) and l not in out['line']:
+            for d in b.defs.get(l, []):
+                if d[0] == 'stmt' and d[3]['rv']['rv'] == 'use' and plain_root(b, d[3]['rv']['op']) in out['line']:
+                    out['prevline'].add(l)
+    return out
+
+
 def insertmix_guard(ctx, P):
     """R08.6: the only pixel store that is not inside a loop bounded by `x < width` is the inserted mix pixel of a FILL that follows a
     FILL.  It is safe for width = 0 only because the flag is never set while nothing has been decoded yet (x == width and no previous
     line): every path that sets the flag must leave that test through `x != width` or `prevline != None`."""
     b = P.bodies['codec::rle::rle_16_decompress']
-    ims = b.locals_named('insertmix')
-    xs, ws, pls = set(b.locals_named('x')), set(b.locals_named('width')), set(b.locals_named('prevline'))
+    V = r16_vars(b)
+    ims = sorted(V['mix'])
+    xs, ws, pls = V['x'], V['width'], V['prevline']
     if len(ims) != 1 or not xs or not ws or not pls:
         ctx.fail('R08.6', 'insertmix:anchor', 'rle_16_decompress no longer has the insertmix / x / width / prevline variables this rule is stated over', b.where())
         return
@@ -301,14 +346,31 @@ def insertmix_guard(ctx, P):
     ctx.floor('R08.6', 'sites that set the inserted-mix flag', len(sets), 1)
 
 
-def copy_root_name(b, op):
-    """name of the user variable an operand is a plain copy of (through temporaries), else None"""
+def plain_root(b, op):
+    """the local an operand is a plain copy of, through unnamed single-assignment temporaries (parameters and named locals stop the walk)"""
+    l = op_local(op)
+    if is_place_op(op) and op['place']['p']:
+        return None
+    for _ in range(8):
+        if l is None:
+            return None
+        if l <= b.arg_count or b.local_name(l):
+            return l
+        ds = b.defs.get(l, [])
+        if len(ds) != 1 or ds[0][0] != 'stmt' or ds[0][3]['rv']['rv'] != 'use' or not is_place_op(ds[0][3]['rv']['op']) or ds[0][3]['rv']['op']['place']['p']:
+            return None
+        l = op_local(ds[0][3]['rv']['op'])
+    return None
+
+
+def copy_root_local(b, op):
+    """the user variable an operand is a plain copy of (through temporaries), else None"""
     l = op_local(op)
     for _ in range(8):
         if l is None:
             return None
         if b.local_name(l):
-            return b.local_name(l)
+            return l
         ds = b.defs.get(l, [])
         if len(ds) != 1 or ds[0][0] != 'stmt' or ds[0][3]['rv']['rv'] != 'use':
             return None
@@ -334,7 +396,8 @@ def line_typestate(ctx, b):
     if id(b) in cache:
         return cache[id(b)]
     ok = False
-    xs, ws, ls = b.locals_named('x'), b.locals_named('width'), b.locals_named('line')
+    V = r16_vars(b)
+    xs, ws, ls = sorted(V['x']), sorted(V['width']), sorted(V['line'])
     if len(xs) == 1 and ls and ws:
         x, line = xs[0], ls[0]
         xdefs = b.defs.get(x, [])
